@@ -80,12 +80,7 @@ fn plan_brief(plan: &Plan) -> J {
         )
 }
 
-pub fn write_replay(dir: &str, name: &str, j: &J) -> String {
-    let _ = std::fs::create_dir_all(dir);
-    let path = format!("{}/{}", dir, name);
-    let _ = std::fs::write(&path, j.pretty());
-    path
-}
+use crate::write_replay;
 
 pub fn cmd_e1(args: &Args) -> i32 {
     let seed = args.u64("seed", 1);
@@ -186,7 +181,7 @@ pub fn cmd_e1(args: &Args) -> i32 {
             // report: full replay first, then a minimised one
             let full = replay_json(&plan, &r.decisions, &v, false, &[]);
             let full_path = write_replay(&replay_dir, &format!("C09-{}-{}-full.json", seed, idx), &full);
-            let m = minimise(&plan, &r.decisions, &v, watchdog, args.u64("min-budget", 400));
+            let m = minimise(&plan, &r.decisions, &r.marks, &v, watchdog, args.u64("min-budget", 1500));
             let mut notes = m.steps.clone();
             notes.push(format!("minimisation evaluations: {}", m.evaluations));
             notes.push(format!("unminimised replay: {}", full_path));
@@ -340,7 +335,9 @@ pub fn replay(j: &J, path: &str, args: &Args) -> i32 {
             return 2;
         }
     };
-    let (r, v) = run_plan(&plan, Some(dec), watchdog, true);
+    // --fresh: ignore the recorded decisions and draw new ones from the plan's sim_seed
+    let dec = if args.flag("fresh") { None } else { Some(dec) };
+    let (r, v) = run_plan(&plan, dec, watchdog, true);
     match v {
         Some(v) => {
             let exp_comp = j.get("expect").and_then(|e| e.get("component")).and_then(|c| c.as_str()).unwrap_or("");
